@@ -72,35 +72,31 @@ Definition challenge (st : cst) (r : reply) (md5 : bool) : option (cst * authk) 
 
 Definition mkreq (m : meth) (a : authk) (s : bool) : req := {| q_meth := m; q_auth := a; q_sess := s |}.
 
-(* requestWithResponse: the request, on 401 the same request again with the password, on a second
-   401 once more with the MD5 of the password; result (accepted?, fields, requests sent, script left) *)
+(* requestWithResponse: the request; on a 401 the same request again with the password; on a second
+   401 once more with the MD5 of the password (the code is this recursion unrolled: [fuel] = retries
+   left, 2 at the start).  Result: (accepted?, fields, requests sent, script left) *)
+Fixpoint attempt (fuel : nat) (user : bool) (m : meth) (st : cst) (a : authk) (se : bool) (s : script)
+  : bool * cst * list req * script :=
+  let q := mkreq m a se in
+  let '(r, s1) := pop s in
+  if transport_fail r then (false, st, [q], s1) else
+  let st1 := set_sess st (sess_after m r) in
+  match fuel with
+  | S f =>
+      if is401 r then
+        if negb user then (false, st1, [q], s1) else       (* "require username and password" *)
+        let md5 := (f =? 0)%nat in
+        let st2 := if md5 then set_md5 st1 else st1 in
+        match challenge st2 r md5 with
+        | None => (false, st2, [q], s1)
+        | Some (st3, a2) =>
+            let '(ok, st4, qs, s2) := attempt f user m st3 a2 se s1 in (ok, st4, q :: qs, s2)
+        end
+      else (is_ok r, st1, [q], s1)
+  | O => (is_ok r, st1, [q], s1)                            (* status must be 200..300 *)
+  end.
 Definition rwr (user : bool) (m : meth) (st : cst) (s : script) : bool * cst * list req * script :=
-  let q1 := mkreq m (cur_auth st) (a_sess st) in
-  let '(r1, s1) := pop s in
-  if transport_fail r1 then (false, st, [q1], s1) else
-  let st1 := set_sess st (sess_after m r1) in
-  if is401 r1 then
-    if negb user then (false, st1, [q1], s1) else
-    match challenge st1 r1 false with
-    | None => (false, st1, [q1], s1)
-    | Some (st2, a2) =>
-        let q2 := mkreq m a2 (a_sess st) in
-        let '(r2, s2) := pop s1 in
-        if transport_fail r2 then (false, st2, [q1; q2], s2) else
-        let st3 := set_sess st2 (sess_after m r2) in
-        if is401 r2 then
-          let st4 := set_md5 st3 in
-          match challenge st4 r2 true with
-          | None => (false, st4, [q1; q2], s2)
-          | Some (st5, a3) =>
-              let q3 := mkreq m a3 (a_sess st) in
-              let '(r3, s3) := pop s2 in
-              if transport_fail r3 then (false, st5, [q1; q2; q3], s3) else
-              (is_ok r3, set_sess st5 (sess_after m r3), [q1; q2; q3], s3)
-          end
-        else (is_ok r2, st3, [q1; q2], s2)
-    end
-  else (is_ok r1, st1, [q1], s1).
+  attempt 2 user m st (cur_auth st) (a_sess st) s.
 
 (* Open after the connect: the requests in order, stopping at the first failure *)
 Fixpoint run_plan (user : bool) (ms : list meth) (st : cst) (s : script) : bool * cst * list req * script :=
@@ -201,39 +197,52 @@ Definition order_ok (l : list meth) : bool :=
 
 Definition count_meth (m : meth) (l : list meth) : nat := length (filter (meth_eqb m) l).
 
-(* the reply the camera gave to the i-th request *)
-Definition reply_to (s : script) (i : nat) : reply := nth (S i) s REof.
+(* the requests paired with the replies the camera gave them ([s] = the script after the connect item) *)
+Fixpoint replies (s : script) (qs : list req) : list (req * reply) :=
+  match qs with
+  | [] => []
+  | q :: qs' => let '(r, s') := pop s in (q, r) :: replies s' qs'
+  end.
 
 Definition auth_none (a : authk) : bool := match a with ANone => true | _ => false end.
 Definition auth_basic (a : authk) : bool := match a with ABasic _ => true | _ => false end.
 Definition auth_digest (a : authk) : bool := match a with ADigest _ => true | _ => false end.
 Definition auth_md5 (a : authk) : bool := match a with ABasic b | ADigest b => b | ANone => false end.
+Definition is_challenge (r : reply) : bool := match r with RBasic | RDigest => true | _ => false end.
 
 (* credentials used as challenged: walking the requests with the replies they received,
-   [seen] = a Basic or Digest challenge has been received so far, [prev] = the previous reply;
+   [k_seen] = a Basic or Digest challenge has been received so far, [k_prev] = the previous request's
+   method and reply, [k_chal] = challenges so far;
    - no Authorization before the first challenge,
    - the request after a Basic (Digest) challenge is the same method with Basic (Digest) credentials,
    - the MD5 variant of the password only after two challenges *)
-Fixpoint creds_ok (s : script) (i : nat) (seen : bool) (prev : option (meth * reply)) (chal : nat) (qs : list req) : bool :=
-  match qs with
-  | [] => true
-  | q :: qs' =>
-      let a := q_auth q in
-      (seen || auth_none a) &&
-      (match prev with
-       | Some (m, RBasic) => auth_basic a && meth_eqb m (q_meth q)
-       | Some (m, RDigest) => auth_digest a && meth_eqb m (q_meth q)
-       | _ => true
-       end) &&
-      (negb (auth_md5 a) || (2 <=? chal)%nat) &&
-      let r := reply_to s i in
-      let c := match r with RBasic | RDigest => true | _ => false end in
-      creds_ok s (S i) (seen || c) (Some (q_meth q, r)) (if c then S chal else chal) qs'
+Record cstate := { k_seen : bool; k_prev : option (meth * reply); k_chal : nat }.
+Definition k0 : cstate := {| k_seen := false; k_prev := None; k_chal := 0 |}.
+Definition prev_check (p : option (meth * reply)) (q : req) : bool :=
+  match p with
+  | Some (m, RBasic) => auth_basic (q_auth q) && meth_eqb m (q_meth q)
+  | Some (m, RDigest) => auth_digest (q_auth q) && meth_eqb m (q_meth q)
+  | _ => true
   end.
+Definition cred_step (k : cstate) (p : req * reply) : option cstate :=
+  let a := q_auth (fst p) in
+  if (k_seen k || auth_none a) && prev_check (k_prev k) (fst p) &&
+     (negb (auth_md5 a) || (2 <=? k_chal k)%nat)
+  then Some {| k_seen := k_seen k || is_challenge (snd p); k_prev := Some (q_meth (fst p), snd p);
+               k_chal := if is_challenge (snd p) then S (k_chal k) else k_chal k |}
+  else None.
+Fixpoint cred_run (k : cstate) (ps : list (req * reply)) : option cstate :=
+  match ps with
+  | [] => Some k
+  | p :: ps' => match cred_step k p with Some k' => cred_run k' ps' | None => None end
+  end.
+Definition creds_ok (s : script) (qs : list req) : bool :=
+  match cred_run k0 (replies s qs) with Some _ => true | None => false end.
 
+(* the camera accepted PLAY: the last request is PLAY and its reply is 200 *)
 Definition last_req_accepted (s : script) (qs : list req) : bool :=
-  match rev qs with
-  | q :: _ => meth_eqb (q_meth q) MPlay && is_ok (reply_to s (length qs - 1))
+  match rev (replies s qs) with
+  | (q, r) :: _ => meth_eqb (q_meth q) MPlay && is_ok r
   | [] => false
   end.
 
@@ -245,23 +254,23 @@ Definition ok_round (c : cfg) (w : world) (s : script) (o : robs) : bool :=
   (* the final state: nothing registered, no connection, counter restored, no goroutine, consumers closed *)
   world_eqb (o_final o) w && o_closed o &&
   (* credentials *)
-  creds_ok s 0 false None 0 (o_reqs o) &&
+  creds_ok (tl s) (o_reqs o) &&
   (c_user c || forallb (fun q => auth_none (q_auth q)) (o_reqs o)) &&
   match o_out o with
   | Playing =>
       c_routed c && negb (c_sdp_bad c) &&
       world_eqb (o_mid o) (playing_world w) && o_again o &&
-      order_ok ms && last_req_accepted s (o_reqs o) &&
+      order_ok ms && last_req_accepted (tl s) (o_reqs o) &&
       (* DESCRIBE, SETUP per track, PLAY were performed *)
       (1 <=? count_meth MDescribe ms)%nat &&
       ((if c_video c then 1 else 0) + (if c_audio c then 1 else 0) <=? count_meth MSetup ms)%nat &&
       (* PLAY carries the camera's session when there was a SETUP *)
       (match rev (o_reqs o) with q :: _ => q_sess q || negb (c_video c || c_audio c) | [] => false end) &&
-      (o_delivered o =? play (skipn (S (length (o_reqs o))) s))
+      (o_delivered o =? play (skipn (length (o_reqs o)) (tl s)))
   | Failed =>
       world_eqb (o_mid o) w && (o_delivered o =? 0) &&
       (* not-found is the answer only when the camera did not accept PLAY *)
-      negb (last_req_accepted s (o_reqs o)) &&
+      negb (last_req_accepted (tl s) (o_reqs o)) &&
       (match o_reqs o with [] => true | _ => order_ok ms end)
   end.
 
